@@ -37,6 +37,23 @@ class Boom(Exception):
     pass
 
 
+class BoomKey(KeyError):
+    pass
+
+
+class BoomBase(BaseException):
+    pass
+
+
+BOOMS = (Boom, BoomKey, BoomBase)
+RAISE = st.tuples(st.just('raise'), st.sampled_from(['exc', 'exc', 'lookup', 'base']))
+
+
+def boom(node):
+    kind = node[1] if len(node) > 1 else 'exc'
+    raise {'exc': Boom, 'lookup': BoomKey, 'base': BoomBase}[kind]()
+
+
 KEYS = ['a', 'b', 'c', 7]
 
 
@@ -68,10 +85,10 @@ def block_ops(threshold, fanout=False):
 
 def tree_strategy(threshold, fanout=False):
     op = block_ops(threshold, fanout).map(lambda o: ('op', o))
-    leaf = st.one_of(op, op, op, op, st.just(('raise',)))
+    leaf = st.one_of(op, op, op, op, RAISE)
     return st.recursive(
         st.lists(leaf, min_size=1, max_size=5),
-        lambda inner: st.lists(st.one_of(op, op, st.just(('raise',)), st.tuples(st.just('block'), inner, st.booleans())), min_size=1, max_size=5),
+        lambda inner: st.lists(st.one_of(op, op, RAISE, st.tuples(st.just('block'), inner, st.booleans())), min_size=1, max_size=5),
         max_leaves=12,
     )
 
@@ -151,19 +168,19 @@ class CacheBlocks(SubCheck):
                         if node[1][0] not in ('get', 'peekitem'):
                             state['wrote'] += 1
                     elif node[0] == 'raise':
-                        raise Boom()
+                        boom(node)
                     else:
                         try:
                             with cache.transact(retry=True):
                                 run_nodes(node[1])
-                        except Boom:
+                        except BOOMS:
                             if not node[2]:
                                 raise
 
             try:
                 with cache.transact(retry=True):
                     run_nodes(case['tree'])
-            except Boom:
+            except BOOMS:
                 aborted = True
             if aborted:
                 r.m = saved
@@ -255,8 +272,8 @@ class PersistentBlocks(SubCheck):
         def case(draw):
             kind = draw(st.sampled_from(['index', 'deque']))
             op = pers_ops(kind).map(lambda o: ('op', o))
-            inner = st.lists(st.one_of(op, op, op, st.just(('raise',))), min_size=1, max_size=4)
-            tree = draw(st.lists(st.one_of(op, op, op, st.just(('raise',)), st.tuples(st.just('block'), inner, st.booleans())), min_size=1, max_size=6))
+            inner = st.lists(st.one_of(op, op, op, RAISE), min_size=1, max_size=4)
+            tree = draw(st.lists(st.one_of(op, op, op, RAISE, st.tuples(st.just('block'), inner, st.booleans())), min_size=1, max_size=6))
             return {'kind': kind, 'maxlen': draw(st.sampled_from([None, 2])), 'pre': draw(st.lists(pers_ops(kind), max_size=5)), 'tree': tree}
 
         return case()
@@ -278,7 +295,7 @@ class PersistentBlocks(SubCheck):
         def outcome(fn):
             try:
                 return ('ok', fn())
-            except Boom:
+            except BOOMS:
                 raise
             except Exception as exc:
                 return ('exc', type(exc).__name__)
@@ -316,7 +333,10 @@ class PersistentBlocks(SubCheck):
                 raise Violation('C06/%s-in-block/result' % kind, 'op %s inside a transaction: %s gives %s, the model %s' % (short(op), kind, short(a), short(b)))
 
         def contents():
-            return list(obj.items()) if kind == 'index' else list(obj)
+            try:
+                return list(obj.items()) if kind == 'index' else list(obj)
+            except Exception as exc:
+                raise Violation('C06/unreadable-after-block/%s' % kind, 'reading the %s back raised %r (a key is listed but its value is gone)\ntree=%s' % (kind, exc, short(case['tree'], 500)))
 
         def model_contents():
             m = box['m']
@@ -334,12 +354,12 @@ class PersistentBlocks(SubCheck):
                         apply(node[1])
                         wrote[0] += 1
                     elif node[0] == 'raise':
-                        raise Boom()
+                        boom(node)
                     else:
                         try:
                             with obj.transact():
                                 run_nodes(node[1])
-                        except Boom:
+                        except BOOMS:
                             if not node[2]:
                                 raise
 
@@ -347,7 +367,7 @@ class PersistentBlocks(SubCheck):
             try:
                 with obj.transact():
                     run_nodes(case['tree'])
-            except Boom:
+            except BOOMS:
                 aborted = True
                 box['m'] = saved
             got, want = contents(), model_contents()
